@@ -283,3 +283,90 @@ func TestEthValueEndToEnd(t *testing.T) {
 		}
 	})
 }
+
+// Law 5 (histories): every conversion is a function of its arguments only. Sequences of conversions over a
+// small pool of amounts, so that the same amount (and the same decimal text) comes back under different
+// decimal counts and through different entry points; each result is compared with integer arithmetic.
+func TestConversionSequences(t *testing.T) {
+	stats.Check(t, 3000, 40000, func(t *rapid.T) {
+		pool := []*big.Int{}
+		for i, n := 0, rapid.IntRange(1, 3).Draw(t, "poolSize"); i < n; i++ {
+			v := genUint256().Draw(t, "amount")
+			if rapid.Bool().Draw(t, "roundAmount") {
+				// a multiple of 10^18: exact under every decimal count
+				v = new(big.Int).Mul(new(big.Int).Quo(v, new(big.Int).Exp(ten, big.NewInt(18), nil)), new(big.Int).Exp(ten, big.NewInt(18), nil))
+			}
+			pool = append(pool, v)
+		}
+		var trace []string
+		sameTextOtherDecimal := false
+		lastText, lastDec := "", int64(-1)
+		steps := rapid.IntRange(2, 8).Draw(t, "steps")
+		for i := 0; i < steps; i++ {
+			v := rapid.SampledFrom(pool).Draw(t, "which")
+			d := int64(rapid.SampledFrom([]int{18, 18, 6, 8, 0, 12, 17}).Draw(t, "decimals"))
+			unit := new(big.Int).Exp(ten, big.NewInt(18-d), nil)
+			var got, want *big.Int
+			var text string
+			var parsedAt int64
+			switch rapid.SampledFrom([]string{"parse", "erc20", "rocket", "bytes"}).Draw(t, "entry") {
+			case "parse":
+				text, parsedAt = utility.BigIntToStr(v), 18
+				g, err := utility.StrToBigInt(text)
+				if err != nil {
+					t.Fatalf("StrToBigInt(%q): %v\nearlier calls: %v", text, err, trace)
+				}
+				got, want = g, v
+				trace = append(trace, fmt.Sprintf("StrToBigInt(BigIntToStr(%s))", v))
+			case "erc20":
+				text, parsedAt = utility.BigIntToStr(v), d
+				got = utility.FormatDecimalForERC20(v, d)
+				want = new(big.Int).Quo(v, unit) // ledger -> token unit; exact on multiples, truncating otherwise
+				if new(big.Int).Mod(v, unit).Sign() != 0 {
+					want = nil // the statement is silent on non-representable amounts
+				}
+				trace = append(trace, fmt.Sprintf("FormatDecimalForERC20(%s,%d)", v, d))
+			case "rocket":
+				m := new(big.Int).Quo(v, unit) // a token amount whose ledger value fits
+				text, parsedAt = "", 18
+				got = utility.FormatDecimalForRocket(m, d)
+				want = new(big.Int).Mul(m, unit)
+				trace = append(trace, fmt.Sprintf("FormatDecimalForRocket(%s,%d)", m, d))
+			default:
+				text, parsedAt = utility.BigIntToStr(v), 18
+				if s := utility.BigIntBytesToStr(v.Bytes()); s != text {
+					t.Fatalf("BigIntBytesToStr(%x)=%q, BigIntToStr gives %q\nearlier calls: %v", v.Bytes(), s, text, trace)
+				}
+				g, err := utility.StrToBigInt(text)
+				if err != nil {
+					t.Fatalf("StrToBigInt(%q): %v\nearlier calls: %v", text, err, trace)
+				}
+				got, want = g, v
+				trace = append(trace, fmt.Sprintf("StrToBigInt(BigIntBytesToStr(%s))", v))
+			}
+			if text != "" && text == lastText && parsedAt != lastDec && v.Sign() != 0 {
+				sameTextOtherDecimal = true
+			}
+			if text != "" {
+				lastText, lastDec = text, parsedAt
+			} else {
+				lastText, lastDec = "", -1
+			}
+			if want != nil && got.Cmp(want) != 0 {
+				t.Fatalf("call %d of the sequence returned %s, exact value %s\ncalls so far: %v", i+1, got, want, trace)
+			}
+		}
+		key := ""
+		if sameTextOtherDecimal {
+			key = fmt.Sprintf("seq|%v", trace)
+		}
+		cls := "seq:no_repeated_text"
+		if sameTextOtherDecimal {
+			cls = "seq:same_text_parsed_under_another_decimal_count_next"
+		}
+		stats.Case(key, "law:sequences", cls)
+		if len(trace) <= 3 {
+			stats.Sample(map[string]interface{}{"law": "sequences", "calls": trace})
+		}
+	})
+}
